@@ -92,7 +92,8 @@ def load_family(repo: Repo, family: str) -> List[Entry]:
         lit = ast.Dict(keys=[ast.copy_location(ast.Constant(k.arg), k.value) for k in node.keywords],
                        values=[k.value for k in node.keywords])
         node = ast.copy_location(lit, node)
-    if node is not None and not isinstance(node, ast.Dict):
+    if node is not None and (not isinstance(node, ast.Dict) or any(k is None for k in node.keys)):
+        # (a literal with `**{...}` parts is computed as well: the parts are evaluated and spliced in where they stand)
         built = _computed_registry(repo, mod, family, node)
         if built is not None:
             return built
